@@ -787,19 +787,35 @@ class Category(DataType, dtypes.Category):
         try:
             return self.coerce(data_container)
         except Exception as exc:  # pylint:disable=broad-except
-            is_coercible: pl.LazyFrame = polars_object_coercible(
-                data_container, self.type
-            ) & self.__belongs_to_categories(
-                data_container.lazyframe, key=data_container.key
-            )
+            # a value is coercible if it can be cast to the physical type and
+            # the result is one of the categories; nulls stay null
+            key = data_container.key or "*"
+            is_coercible: pl.LazyFrame = data_container.lazyframe.select(
+                pl.col(key).is_null()
+                | pl.col(key)
+                .cast(self.type, strict=False)
+                .is_in(self.categories)
+                .fill_null(False)
+            ).select(pl.all_horizontal(pl.all()).alias(CHECK_OUTPUT_KEY))
 
-            failure_cases = polars_failure_cases_from_coercible(
-                data_container, is_coercible
-            )
+            # as DataType.try_coerce: collected failure cases and the row
+            # mask they come from
+            try:
+                failure_cases = polars_failure_cases_from_coercible(
+                    data_container, is_coercible
+                ).collect()
+                is_coercible = is_coercible.collect()
+            except COERCION_ERRORS:
+                is_coercible, failure_cases = polars_coerce_failure_cases(
+                    data_container, self.type
+                )
+            if data_container.key:
+                failure_cases = failure_cases.select(data_container.key)
             raise errors.ParserError(
                 f"Could not coerce {type(data_container)} data_container "
                 f"into type {self.type}. Invalid categories found in data_container.",
                 failure_cases=failure_cases,
+                parser_output=is_coercible,
             ) from exc
 
     def __belongs_to_categories(
